@@ -607,7 +607,8 @@ func TestPartitionLookbackRapid(t *testing.T) {
 		nowSec := base
 		var evs []string
 		nextID := int32(200)
-		for e := 0; e < rapid.IntRange(1, 8).Draw(rt, "events"); e++ {
+		nEvents := rapid.IntRange(1, 8).Draw(rt, "events")
+		for e := 0; e < nEvents; e++ {
 			nowSec += int64(rapid.IntRange(0, 20).Draw(rt, "dt"))
 			ids := make([]int32, 0, len(cur.Partitions))
 			for pid := range cur.Partitions {
